@@ -23,6 +23,13 @@ def _plt(work, name, seed, **kw):
             m.layout[lv] = gen._layout(rng, nb, min(nb, 3), True)
     p = os.path.join(work, name)
     gen.write_plotfile(m, p)
+    if seed % 2 == 0:
+        # every other input is reached through `<symlinked directory>/../<name>`; where that path collapses
+        # lexically sits a decoy: a plotfile of the same name and mesh with other data
+        from . import workload
+        decoy = gen.gen_model(**dict(g, data_seed=seed + 77))
+        decoy.layout = m.layout
+        p = workload.reach_link_dotdot(work, p, decoy)
     return m, p
 
 
